@@ -73,6 +73,11 @@ Finish(jb) == /\ jb \in running
 
 Next == Submit \/ AllSubmitted \/ WaitDone \/ (\E jb \in Jobs : Begin(jb) \/ Work(jb) \/ Finish(jb))
 Spec == Init /\ [][Next]_vars
+\* progress: with a fair pool (a queued job is eventually begun, a running job eventually reports) and a submitter that keeps going,
+\* the optimiser finishes - in particular COVER_best_wait is always woken
+Progress == Submit \/ AllSubmitted \/ WaitDone \/ (\E jb \in Jobs : Begin(jb) \/ Finish(jb))
+FairSpec == Spec /\ WF_vars(Progress)
+Terminates == <>(cur = Ctxs + 1)
 
 NoUseAfterDestroy == ~uaf
 CounterExact == StartInJob \/ liveJobs = Cardinality({jb \in queue \cup running : TRUE})
